@@ -100,7 +100,7 @@ Proof.
   - destruct Hr.
   - destruct (step w e) as [w1 d1] eqn:Es. destruct (run w1 es) as [w2 d2] eqn:Er. cbn [snd] in Hr.
     apply in_app_or in Hr. destruct Hr as [Hr|Hr].
-    + destruct e as [now|rp d|g l|]; cbn [step] in Es; try (inversion Es; subst; destruct Hr).
+    + destruct e as [now|rp d|g l|now'|]; cbn [step] in Es; try (inversion Es; subst; destruct Hr).
       exists [], now, es. split; [reflexivity|]. cbn [run fst]. rewrite Es. exact Hr.
     + assert (Hr' : In r (snd (run w1 es))) by (rewrite Er; exact Hr).
       destruct (IH w1 r Hr') as (pre & now & post & -> & Hin).
